@@ -611,3 +611,30 @@ package exec
 //@   loop 2 invariant entries-distinct: forall(t1, at_loop(2, len(todo)), len(todo), forall(t2, at_loop(2, len(todo)), len(todo), implies(t1 != t2, todo[t1] != todo[t2])))
 //@   loop 2 exit all-dependencies-enqueued: len(todo) == at_loop(2, len(todo)) + len(b.invocationDeps[i])
 //@   loop 3 invariant -1 <= i && i < len(invocations)
+
+// ---- C06: what is fatal to a task on a worker ----
+
+// An error wrapped as maybeTaskFatalErr (application errors, panics) keeps its severity: a Fatal one stays Fatal and
+// halts evaluation. Any other Fatal *errors.Error (e.g. a failed read from another machine) is downgraded in place so
+// that the evaluator retries the task. Everything else passes through.
+//@ func exec.reviseSeverity (err) (out)
+//@   ensures  nil-stays-nil: implies(err == nil, out == nil)
+//@   ensures  task-fatal-unwrapped: implies(err != nil && hastype(err, maybeTaskFatalErr), out == unbox(err, maybeTaskFatalErr).error)
+//@   ensures  task-fatal-severity-kept: implies(err != nil && hastype(err, maybeTaskFatalErr), forall(e, *errors.Error, e.Severity == old(e.Severity)))
+//@   ensures  other-fatal-downgraded: implies(err != nil && !hastype(err, maybeTaskFatalErr) && hastype(err, *errors.Error) && unbox(err, *errors.Error) != nil && old(unbox(err, *errors.Error).Severity) == errors.Fatal, out == err && unbox(err, *errors.Error).Severity == errors.Unknown)
+//@   ensures  rest-unchanged: implies(err != nil && !hastype(err, maybeTaskFatalErr) && !(hastype(err, *errors.Error) && unbox(err, *errors.Error) != nil && old(unbox(err, *errors.Error).Severity) == errors.Fatal), out == err && forall(e, *errors.Error, e.Severity == old(e.Severity)))
+//@   modifies errors.Error.Severity
+
+// On a worker, whatever the task's own reader (the composed user code) returns as an error other than end-of-stream
+// leaves Run's body wrapped as maybeTaskFatalErr — on the no-column, the partitioned and the single-partition path —
+// so that reviseSeverity keeps its severity: a Fatal application error halts evaluation instead of being retried
+// as a lost task. Panics in user code are converted to Fatal task errors by the deferred recover.
+//@ func exec.(*worker).Run (ctx, req, reply) (err)
+//@   requires w != nil && reply != nil && w.store != nil && regOK()
+//@   flag recover_safety
+//@   flag trust_nil_safety
+//@   flag abstract_calls frame.Copy, frame.Frame.Slice, frame.Make
+//@   ensures  user-error-is-task-fatal: implies(!panicked && taskDoCalls == old(taskDoCalls) + 1 && funcIsNil(lastDoTask.Combiner) && lastTaskOut.nreads > 0 && lastTaskOut.lastErr != nil && lastTaskOut.lastErr != sliceio.EOF, hastype(returned0, maybeTaskFatalErr) && unbox(returned0, maybeTaskFatalErr).error == lastTaskOut.lastErr)
+//@   modifies unknown
+//@   loop 8 invariant lastTaskOut == out && lastDoTask == task && taskDoCalls == old(taskDoCalls) + 1 && (out.nreads == 0 || out.lastErr == nil)
+//@   loop 11 invariant lastTaskOut == out && lastDoTask == task && taskDoCalls == old(taskDoCalls) + 1 && (out.nreads == 0 || out.lastErr == nil)
